@@ -2,7 +2,7 @@
    Only ExtrOcamlBasic is used (bool, option, unit, list, prod, sumbool, sumor
    mapped to OCaml's); N, positive, Z, nat stay the extracted inductive types. *)
 From Coq Require Import ExtrOcamlBasic.
-From XD Require Import Model.Base Model.Ellipsis Model.Checker Model.Parser Model.Text Model.Directive Model.RunLoop Model.Runner Model.Collect Model.FS Spec.ImportResolve Model.Proc Model.Isolation Model.Format Model.StaticCollect Model.DynCollect Model.Lines Model.StdDoctest Model.StdOutput Model.Report Model.DirInline.
+From XD Require Import Model.Base Model.Ellipsis Model.Checker Model.Parser Model.Text Model.Directive Model.RunLoop Model.Runner Model.Collect Model.FS Spec.ImportResolve Model.Proc Model.Isolation Model.Format Model.StaticCollect Model.DynCollect Model.Lines Model.StdDoctest Model.StdOutput Model.Report Model.DirInline Model.CliOptions.
 Extraction Language OCaml.
 Extraction "../ocaml/xdmodel_core.ml"
   is_space is_linebreak is_word
@@ -26,4 +26,4 @@ Extraction "../ocaml/xdmodel_core.ml"
   n_digits_of format_src format_part dump_module dump_function repr_failure_head_of
   visit_module visit package_modpaths walk dyn_module
   find_docstr_start google_group_offsets freeform_example_lineno google_example_lineno
-  extract_inline extract_inline_before_F31.
+  extract_inline extract_inline_before_F31 populate_from_cli.
